@@ -34,6 +34,8 @@ pub enum Unit {
 	/// cancel the send that is waiting for finalisation (the one that carries the TTL in the expiring base world)
 	CancelWaiting,
 	Post,
+	/// the owner makes the second account the active one (set_active_account)
+	SwitchAccount,
 	EvMine,
 	EvNodeDown,
 }
@@ -65,14 +67,25 @@ pub struct Scenario {
 	/// the smallest output, so the send initiated by the Init unit selects it as soon as it is confirmed
 	#[serde(default)]
 	incoming: bool,
+	/// base world variant (with the expiring send Q) in which a second account holds a pending send without
+	/// a cutoff whose log id equals Q's (log ids are counted per account)
+	#[serde(default)]
+	twin: bool,
 }
 
 fn base_world(dir: &str, ttl: bool, restored: bool) {
-	base_world_v(dir, ttl, restored, false)
+	base_world_v(dir, ttl, restored, false, false)
 }
 
-fn base_world_v(dir: &str, ttl: bool, restored: bool, incoming: bool) {
+fn base_world_v(dir: &str, ttl: bool, restored: bool, incoming: bool, twin: bool) {
 	let mut w = World::create(dir, &[("A", "A"), ("B", "B"), ("M", "M")]);
+	if twin {
+		// the second account gets one reward early, so that it is mature by the time it is spent
+		w.w("A").create_account("acct1").unwrap();
+		w.w("A").set_account("acct1").unwrap();
+		w.mine_n("A", 1);
+		w.w("A").set_account("default").unwrap();
+	}
 	w.mine_n("A", 5);
 	w.mine_n("B", 3);
 	w.mine_n("M", 3);
@@ -104,6 +117,25 @@ fn base_world_v(dir: &str, ttl: bool, restored: bool, incoming: bool) {
 	let q1 = a.init_send(qargs).unwrap();
 	a.lock(&q1).unwrap();
 	let q2 = b.receive(&q1, None).unwrap();
+	if twin {
+		// a pending send of the second account under the same numeric log id as Q
+		let q_entry = a.txs().into_iter().find(|t| t.tx_slate_id == Some(q1.id)).unwrap().id;
+		a.set_account("acct1").unwrap();
+		a.refresh().unwrap();
+		let p1 = a.with(|x| x.parent_key_id());
+		loop {
+			let next = a.txs().iter().filter(|e| e.parent_key_id == p1).map(|e| e.id + 1).max().unwrap_or(0);
+			if next >= q_entry {
+				break;
+			}
+			a.issue_invoice(crate::libwallet::IssueInvoiceTxArgs { amount: G, ..Default::default() }).unwrap();
+		}
+		let t1 = a.init_send(default_args(2 * G)).unwrap();
+		a.lock(&t1).unwrap();
+		let tid = a.txs().into_iter().find(|t| t.tx_slate_id == Some(t1.id)).unwrap().id;
+		assert_eq!(tid, q_entry, "twin transaction must carry the log id of Q");
+		a.set_account("default").unwrap();
+	}
 	// R1: an incoming payment not yet received
 	let r1 = b.init_send(default_args(3 * G)).unwrap();
 	b.lock(&r1).unwrap();
@@ -211,6 +243,10 @@ fn run_unit(w: &World, u: &Unit, q3_tx: &Mutex<Option<String>>) -> String {
 				Ok(Some(tx)) if !tx.kernels().is_empty() && tx.kernels()[0].verify().is_ok() => lbl(a.post(&tx)),
 				_ => "nothing-to-post".into(),
 			}
+		}
+		Unit::SwitchAccount => {
+			sched::yield_point(Point::Lock);
+			lbl(a.set_account("acct1"))
 		}
 		Unit::EvMine => {
 			w.mine("M").unwrap();
@@ -576,7 +612,7 @@ fn explore_scenario(root: &str, base: &Snapshot, sc: &Scenario, bound: Option<us
 }
 
 fn scenarios(thorough: bool) -> Vec<Scenario> {
-	let sc = |name: &str, r: Unit, ops: Vec<Vec<Unit>>, ev: Vec<Unit>| Scenario { name: name.into(), refresher: r, ops, events: ev, ttl: false, restored: false, quick_budget: None, incoming: false };
+	let sc = |name: &str, r: Unit, ops: Vec<Vec<Unit>>, ev: Vec<Unit>| Scenario { name: name.into(), refresher: r, ops, events: ev, ttl: false, restored: false, quick_budget: None, incoming: false, twin: false };
 	let il = || vec![Unit::Init, Unit::Lock];
 	let mut v = vec![
 		sc("refresh+cancel-posted+mine", Unit::Refresh, vec![vec![Unit::CancelPosted]], vec![Unit::EvMine]),
@@ -592,6 +628,7 @@ fn scenarios(thorough: bool) -> Vec<Scenario> {
 		// reading of its list and its TTL sweep, with the block already mined: give it room in the quick tier
 		Scenario { ttl: true, quick_budget: Some(2600), ..sc("refresh+cancel-expiring+mine", Unit::Refresh, vec![vec![Unit::CancelWaiting]], vec![Unit::EvMine]) },
 		Scenario { incoming: true, quick_budget: Some(1300), ..sc("incoming:refresh+init-lock+mine", Unit::Refresh, vec![il()], vec![Unit::EvMine]) },
+		Scenario { ttl: true, twin: true, ..sc("twin:refresh+switch-account+mine", Unit::Refresh, vec![vec![Unit::SwitchAccount]], vec![Unit::EvMine]) },
 		Scenario { restored: true, ..sc("restored:scan+receive+receive", Unit::Scan { delete_unconfirmed: false }, vec![vec![Unit::Receive, Unit::Receive2]], vec![]) },
 	];
 	if thorough {
@@ -613,7 +650,7 @@ pub fn replay(payload: &Value) -> i32 {
 	let root = scratch_root();
 	let sc: Scenario = serde_json::from_value(payload["scenario"].clone()).unwrap();
 	let based = format!("{}/c20-replay-base", root);
-	base_world_v(&based, sc.ttl, sc.restored, sc.incoming);
+	base_world_v(&based, sc.ttl, sc.restored, sc.incoming, sc.twin);
 	let base = Snapshot::capture(&based);
 	let schedule: Vec<usize> = serde_json::from_value(payload["schedule"].clone()).unwrap_or_default();
 	let perms = permutations(&sc);
@@ -652,8 +689,11 @@ pub fn run(_args: &[String]) -> i32 {
 	let based_res = format!("{}/c20-base-restored", root);
 	base_world(&based_res, false, true);
 	let base_res = Snapshot::capture(&based_res);
+	let based_twin = format!("{}/c20-base-twin", root);
+	base_world_v(&based_twin, true, false, false, true);
+	let base_twin = Snapshot::capture(&based_twin);
 	let based_inc = format!("{}/c20-base-incoming", root);
-	base_world_v(&based_inc, false, false, true);
+	base_world_v(&based_inc, false, false, true, false);
 	let base_inc = Snapshot::capture(&based_inc);
 	let mut scs = scenarios(thorough);
 	// recorded schedules of the known findings: re-run in every tier (pinned/C20.json, committed)
@@ -680,7 +720,7 @@ pub fn run(_args: &[String]) -> i32 {
 		let budget: u64 = std::env::var("GWV_C20_BUDGET").ok().and_then(|v| v.parse().ok()).unwrap_or(if thorough { 40_000 } else { sc.quick_budget.unwrap_or(700) });
 		let pins: Vec<Vec<usize>> = pinned.iter().filter(|p| p["scenario"]["name"] == json!(sc.name)).filter_map(|p| serde_json::from_value(p["schedule"].clone()).ok()).collect();
 		let pinned_only = !thorough && std::env::var("GWV_C20_SCENARIO").is_err() && !scenarios(false).iter().any(|q| q.name == sc.name);
-		let base = if sc.incoming { &base_inc } else if sc.restored { &base_res } else if sc.ttl { &base_ttl } else { &base_plain };
+		let base = if sc.twin { &base_twin } else if sc.incoming { &base_inc } else if sc.restored { &base_res } else if sc.ttl { &base_ttl } else { &base_plain };
 		let r = explore_scenario(&root, base, sc, None, per_wall, if pinned_only { 0 } else { budget }, &pins);
 		total += r.schedules;
 		distinct_total += r.distinct_final;
